@@ -15,7 +15,8 @@
      Decided(h,r,n,F) a decided certificate (aggregated commit, n signers 1..n, round r) for height h;
                       F = failing write attempts (see below)
      OnTimeout(h,r)   a timeout event reaching controller.OnTimeout
-     Restart          process crash between two calls + Validator.Start on the same database
+     Restart(rk)      process crash between two calls + Validator.Start on the same database; rk = outcome of the
+                      ONE storage read Start makes per runner (LoadHighestInstance -> GetHighestInstance), see below
      DecidedCrash(h,r,n,k) / LocalMsgsCrash(h,k)
                       the same call, but the process dies inside it right before its (k+1)-th database write
                       (k writes are durable), followed by Validator.Start.  A full node's save of a highest
@@ -30,6 +31,23 @@
    A database record is [h, cr, n, inst, late]: the certificate's round and number of signers (DecidedMessage), the
    compacted instance state stored with it, and (history only, not part of the real record) whether it was written
    as a non-highest record, i.e. for a decided message that arrived below c.Height.
+
+   Failing / empty storage READS (MaxReadFaults, ReadKinds).  The code reads the store in two places of this footprint:
+     Validator.Start -> Controller.LoadHighestInstance -> ibftStorage.GetHighestInstance   (one Get per runner)
+     Controller.InstanceForHeight -> ibftStorage.GetInstance, full node only, only for a height that is not in
+     memory (UponDecided of an old height)                                                  (one Get per call)
+   A read has one of the outcomes "ok" | "err" (db.Get returns an error) | "garbage" (the record does not decode:
+   GetHighestInstance / GetInstance return "could not decode instance") | "empty" (the database answers not-found
+   although the record is there).  The code's reaction, transcribed:
+     LoadHighestInstance returns the error of "err" / "garbage"; Validator.Start LOGS it ("failed to load highest
+     instance") and goes on: the validator is started with a fresh controller (Height 0, no instance, highest decided
+     slot 0) exactly as if nothing had ever been stored.  "empty" is indistinguishable from a first start.
+     InstanceForHeight logs the error and returns nil: UponDecided goes on as if the height had never been decided -
+     it creates a decided instance from the message and SAVES it over the stored record.
+   lf = how this incarnation was loaded: "ok" | "err" (the store reported an error and the code went on) | "empty".
+   ReadFix = TRUE models the proposed repair: Validator.Start returns the load error without starting anything (no queue
+   consumer: no message is processed, no duty runs) until a later start attempt (RetryStart) loads successfully, and
+   UponDecided returns the error of a failed instance lookup without touching anything.
 
    Weaken names ONE deviation from the code at a time (attack configs); "none" is the faithful spec.
      compareOwnRoundOnly  UponDecided compares with the commits of the certificate's own round only
@@ -63,7 +81,10 @@ CONSTANTS MaxH,         \* heights / slots 0..MaxH
           Direct,       \* BOOLEAN: include CtlStart
           Timeouts,     \* BOOLEAN: include OnTimeout
           MidCrash,     \* BOOLEAN: include the crash points inside a call (between the database writes)
-          MaxWriteFaults \* number of database writes that may fail (error returned, nothing written)
+          MaxWriteFaults, \* number of database writes that may fail (error returned, nothing written)
+          MaxReadFaults, \* number of database reads that may fail / answer not-found / return an undecodable record
+          ReadKinds,     \* subset of {"err", "empty", "garbage"}
+          ReadFix        \* BOOLEAN: FALSE = the code as pinned (read errors logged and swallowed); TRUE = proposed repair
 
 VARIABLES height,       \* Controller.Height
           stored,       \* Controller.StoredInstances
@@ -71,13 +92,15 @@ VARIABLES height,       \* Controller.Height
           db,           \* [hi |-> record, hist |-> [Heights -> record]]
           restarts,
           wf,           \* write faults so far
+          rf,           \* read faults so far
+          lf,           \* how Validator.Start loaded this incarnation: "ok" | "err" | "empty"
           top,          \* history: highest height started or learned as decided by this incarnation (-1: none)
           lc,           \* history: highest height this incarnation learned through a completely processed decided
                         \* message that was not late (h >= c.Height on arrival), for an instance it did not hold as
                         \* decided already and that the store did not know as a late record only (-1: none)
           act
-vars == <<height, stored, rs, db, restarts, wf, top, lc, act>>
-view == <<height, stored, rs, db, restarts, wf, top, lc>>
+vars == <<height, stored, rs, db, restarts, wf, rf, lf, top, lc, act>>
+view == <<height, stored, rs, db, restarts, wf, rf, lf, top, lc>>
 
 Heights == 0..MaxH
 Rounds  == 1..2
@@ -158,10 +181,17 @@ SaveRun(w, a, F) ==
 FaultSets == IF wf >= MaxWriteFaults THEN {{}}
              ELSE {F \in SUBSET (1..(IF FullNode THEN 4 ELSE 2)) : Cardinality(F) <= MaxWriteFaults - wf}
 
+(* outcomes of one storage read; Blind = the store reported an error (the code KNOWS the read failed) *)
+RdPlans   == IF rf < MaxReadFaults THEN {"ok"} \cup ReadKinds ELSE {"ok"}
+Blind(rk) == rk \in {"err", "garbage"}
+RfInc(rk) == IF rk = "ok" THEN 0 ELSE 1
+(* ReadFix: a validator whose load failed is not started - its queue consumer does not run *)
+NotStarted == ReadFix /\ lf = "err"
+
 ----------------------------------------------------------------------------
 Init == /\ height = 0 /\ stored = <<>> /\ rs = [has |-> FALSE, run |-> -1]
         /\ db = [hi |-> NoRec, hist |-> [h \in Heights |-> NoRec]]
-        /\ restarts = 0 /\ wf = 0 /\ top = -1 /\ lc = -1
+        /\ restarts = 0 /\ wf = 0 /\ rf = 0 /\ lf = "ok" /\ top = -1 /\ lc = -1
         /\ act = [name |-> "init", full |-> FullNode]
 
 (* Controller.StartNewInstance(s): "" when it starts the instance, else the reason of the refusal *)
@@ -176,7 +206,10 @@ GateRefuses(s) == /\ IF Weaken = "gateStrict" THEN height > s ELSE height >= s
                   /\ height # 0
 
 StartDuty(s) ==
-    /\ IF GateRefuses(s)
+    /\ IF NotStarted                  \* ReadFix only: OnExecuteDuty never runs, the duty is not executed
+       THEN /\ act' = [name |-> "StartDuty", slot |-> s, ok |-> FALSE, why |-> "notstarted"]
+            /\ UNCHANGED <<height, stored, rs, top>>
+       ELSE IF GateRefuses(s)
        THEN /\ act' = [name |-> "StartDuty", slot |-> s, ok |-> FALSE, why |-> "gate"]
             /\ UNCHANGED <<height, stored, rs, top>>
        ELSE IF CtlRefusal(s) # ""        \* baseSetupForNewDuty already replaced the runner state
@@ -187,33 +220,51 @@ StartDuty(s) ==
             /\ height' = s /\ stored' = StartedStore(s)
             /\ rs' = [has |-> TRUE, run |-> s]
             /\ top' = MaxI(top, s)
-    /\ UNCHANGED <<db, restarts, wf, lc>>
+    /\ UNCHANGED <<db, restarts, wf, rf, lf, lc>>
 
 CtlStart(s) ==
-    /\ Direct
+    /\ Direct /\ ~NotStarted
     /\ IF CtlRefusal(s) # ""
        THEN /\ act' = [name |-> "CtlStart", slot |-> s, ok |-> FALSE, why |-> CtlRefusal(s)]
             /\ UNCHANGED <<height, stored, top>>
        ELSE /\ act' = [name |-> "CtlStart", slot |-> s, ok |-> TRUE, why |-> ""]
             /\ height' = s /\ stored' = StartedStore(s)
             /\ top' = MaxI(top, s)
-    /\ UNCHANGED <<rs, db, restarts, wf, lc>>
+    /\ UNCHANGED <<rs, db, restarts, wf, rf, lf, lc>>
 
-(* Validator.Start on database d: NewController + LoadHighestInstance *)
-Boot(d) ==
-    /\ restarts < MaxRestarts
-    /\ restarts' = restarts + 1
+(* Validator.Start on database d: NewController + LoadHighestInstance, whose one read has the outcome rk.
+   On "err" / "garbage" LoadHighestInstance returns the error before it touches the controller and Start only logs
+   it; on "empty" (and when nothing is stored) it returns nil, nil: the new controller stays at Height 0 without
+   an instance.  top = what the runner is accountable for after this start: the durably stored highest height -
+   unless the database itself answered not-found ("empty"), which no code can tell from a first start. *)
+Load(d, rk) ==
+    /\ rk \in RdPlans
     /\ rs' = [has |-> FALSE, run |-> -1]
-    /\ IF d.hi.h = -1
+    /\ IF d.hi.h = -1 \/ rk # "ok"
        THEN height' = 0 /\ stored' = <<>>
        ELSE /\ height' = IF Weaken = "loadNoHeight" THEN 0 ELSE d.hi.h
             /\ stored' = <<Compact(d.hi.inst)>>
-    /\ top' = d.hi.h /\ lc' = -1
+    /\ top' = IF rk = "empty" THEN -1 ELSE d.hi.h
+    /\ lc' = -1
+    /\ lf' = IF Blind(rk) THEN "err" ELSE IF rk = "empty" /\ d.hi.h # -1 THEN "empty" ELSE "ok"
+    /\ rf' = rf + RfInc(rk)
     /\ db' = d /\ UNCHANGED wf
+Boot(d, rk) ==
+    /\ restarts < MaxRestarts
+    /\ restarts' = restarts + 1
+    /\ Load(d, rk)
+(* ReadFix only: a later start attempt of the validator whose load had failed (startValidator is called again by the
+   operator's metadata loop); no process death, same database *)
+RetryStart(rk) ==
+    /\ NotStarted
+    /\ Load(db, rk)
+    /\ act' = [name |-> "RetryStart", brd |-> rk]
+    /\ UNCHANGED restarts
 
 (* the seven deciding messages of round 1 for the running instance (they are refused as "future" above
    c.Height, and a force-stopped instance refuses everything) *)
 LocalGuard(h) == LET k == Idx(stored, h) IN
+    /\ ~NotStarted
     /\ k # 0 /\ h = height
     /\ stored[k].run /\ ~stored[k].stop /\ ~stored[k].prop
 LocalNew(h) == LET i == stored[Idx(stored, h)] IN
@@ -237,29 +288,33 @@ LocalMsgs(h, F) ==
             /\ act' = [name |-> "LocalMsgs", h |-> h, fail |-> F,
                        res |-> IF i.dec THEN "already" ELSE IF LocalSaves(h) THEN "decided-saved" ELSE "decided-nosave"]
     /\ wf' = wf + Cardinality(F)
-    /\ UNCHANGED <<height, rs, restarts, lc>>
+    /\ UNCHANGED <<height, rs, restarts, rf, lf, lc>>
 
-(* ... and the process dies right before the (k+1)-th database write of that call *)
-LocalMsgsCrash(h, k) ==
+(* ... and the process dies right before the (k+1)-th database write of that call; rk = the read of the next start *)
+LocalMsgsCrash(h, k, rk) ==
     /\ MidCrash /\ LocalGuard(h) /\ LocalSaves(h)
     /\ k < Len(Writes(db, h, height))
-    /\ Boot(SaveK(db, LocalNew(h), 1, 3, height, k))
-    /\ act' = [name |-> "LocalMsgsCrash", h |-> h, k |-> k]
+    /\ Boot(SaveK(db, LocalNew(h), 1, 3, height, k), rk)
+    /\ act' = [name |-> "LocalMsgsCrash", h |-> h, k |-> k, brd |-> rk]
 
 Commit4(h) ==
     LET k == Idx(stored, h) IN
+    /\ ~NotStarted
     /\ k # 0 /\ h = height
     /\ stored[k].prop /\ stored[k].round = 1 /\ ~stored[k].stop
     /\ \A j \in 1..Len(stored[k].cc[1]) : stored[k].cc[1][j] # {4}
     /\ stored' = [stored EXCEPT ![k].cc[1] = Append(@, {4})]
     /\ act' = [name |-> "Commit4", h |-> h]
-    /\ UNCHANGED <<height, rs, db, restarts, wf, top, lc>>
+    /\ UNCHANGED <<height, rs, db, restarts, wf, rf, lf, top, lc>>
 
 (* Controller.UponDecided for a valid certificate, then BaseRunner.compactInstanceIfNeeded.
-   When the certificate decides the runner's own running instance the runner saves it a second time (same record). *)
-DecidedCalc(h, r, n) ==
+   When the certificate decides the runner's own running instance the runner saves it a second time (same record).
+   rk = outcome of the storage read of InstanceForHeight, which a full node makes when the height is not in memory:
+   any outcome but "ok" makes it return nil (error logged), i.e. the stored record is not seen. *)
+DecidedCalc(h, r, n, rk) ==
     LET k    == Idx(stored, h)
-        disk == k = 0 /\ FullNode /\ db.hist[h].h = h       \* InstanceForHeight: a transient copy from storage
+        reads == k = 0 /\ FullNode                           \* InstanceForHeight goes to storage
+        disk == reads /\ db.hist[h].h = h /\ rk = "ok"       \* ... and gets a transient copy of the stored instance
         more == IF k # 0 THEN n > Cmp(stored[k], r) ELSE n > Cmp(db.hist[h].inst, r)
         st1  == IF k = 0
                 THEN IF disk THEN stored
@@ -271,7 +326,7 @@ DecidedCalc(h, r, n) ==
         save == IF k # 0 /\ stored[k].dec THEN more ELSE IF disk THEN more ELSE TRUE
         k1   == Idx(st1, h)
         prev == (k # 0 /\ stored[k].dec) \/ disk             \* prevDecided
-    IN [st1 |-> st1, k1 |-> k1, disk |-> disk, memdec |-> k # 0 /\ stored[k].dec,
+    IN [st1 |-> st1, k1 |-> k1, disk |-> disk, reads |-> reads, memdec |-> k # 0 /\ stored[k].dec,
         sv |-> save /\ k1 # 0,                               \* only an instance held in memory is saved
         resave |-> ~prev /\ rs.has /\ rs.run = h /\ k1 # 0,  \* baseConsensusMsgProcessing saves it again
         bump |-> h > height /\ Weaken # "noBump"]
@@ -279,56 +334,72 @@ DecidedCalc(h, r, n) ==
 (* F: the write attempts of this call that fail.  The controller's save (s1) comes first; when the certificate
    decides the runner's own running instance the runner's save (s2) follows, whatever the outcome of s1.  Both
    errors are logged and swallowed, nothing in memory depends on them (Weaken: saveErrReturns, saveErrNoBump). *)
-Decided(h, r, n, F) ==
-    LET c  == DecidedCalc(h, r, n)
+Decided(h, r, n, F, rk) ==
+    LET c  == DecidedCalc(h, r, n, rk)
         w1 == Len(Writes(db, h, height))
         s1 == IF c.sv THEN SaveRun(w1, 1, F) ELSE NoSave(1)
         early  == Weaken = "saveErrReturns" /\ s1.err       \* UponDecided returned the error
         nobump == early \/ (Weaken = "saveErrNoBump" /\ s1.err)
         s2 == IF c.resave /\ ~early THEN SaveRun(w1, s1.next, F) ELSE NoSave(s1.next)
         st2 == IF Weaken = "saveErrUndecides" /\ s1.err THEN [c.st1 EXCEPT ![c.k1].dec = FALSE] ELSE c.st1
-    IN /\ F \subseteq 1..(s2.next - 1)             \* every planned failure is hit
+    IN /\ ~NotStarted
+       /\ rk \in RdPlans /\ (rk # "ok" => c.reads)  \* a planned read fault is hit
+       /\ ~(ReadFix /\ Blind(rk))                   \* (the repaired call: DecidedReadErr)
+       /\ F \subseteq 1..(s2.next - 1)             \* every planned failure is hit
        /\ db' = IF c.sv THEN SaveSet(db, c.st1[c.k1], r, n, height, s1.done \cup s2.done) ELSE db
        /\ height' = IF c.bump /\ ~nobump THEN h ELSE height
        /\ stored' = CompactAtMsg(st2, h, r)
        /\ top' = MaxI(top, h)                      \* learned in memory, whatever the store says
        /\ wf' = wf + Cardinality(F)
+       /\ rf' = rf + RfInc(rk)
        \* learned from this message AND due to survive a restart: timely, the node did not hold the instance as
        \* decided in memory already (then it had learned it before), the store did not know it as a late record
        \* only, and no write of this call failed (a failed write followed by a restart legitimately forgets)
-       /\ lc' = IF h >= height /\ ~c.memdec /\ ~(c.disk /\ db.hist[h].late) /\ F = {} THEN MaxI(lc, h) ELSE lc
+       /\ lc' = IF h >= height /\ ~c.memdec /\ ~(c.disk /\ db.hist[h].late) /\ F = {} /\ rk = "ok"
+                THEN MaxI(lc, h) ELSE lc
        /\ act' = [name |-> "Decided", h |-> h, r |-> r, n |-> n, saved |-> c.sv, bumped |-> c.bump /\ ~nobump,
-                  fail |-> F]
-       /\ UNCHANGED <<rs, restarts>>
+                  fail |-> F, rd |-> rk]
+       /\ UNCHANGED <<rs, restarts, lf>>
 
-DecidedCrash(h, r, n, k) ==
-    LET c  == DecidedCalc(h, r, n)
+(* ReadFix only: InstanceForHeight reports the failed lookup, UponDecided returns the error, nothing changes *)
+DecidedReadErr(h, r, n, rk) ==
+    /\ ReadFix /\ ~NotStarted /\ Blind(rk) /\ rk \in RdPlans
+    /\ DecidedCalc(h, r, n, rk).reads
+    /\ rf' = rf + 1
+    /\ act' = [name |-> "Decided", h |-> h, r |-> r, n |-> n, saved |-> FALSE, bumped |-> FALSE, fail |-> {}, rd |-> rk]
+    /\ UNCHANGED <<height, stored, rs, db, restarts, wf, lf, top, lc>>
+
+(* the in-call read of a call that dies is fault-free; rk = the read of the next start *)
+DecidedCrash(h, r, n, k, rk) ==
+    LET c  == DecidedCalc(h, r, n, "ok")
         w1 == Len(Writes(db, h, height))
-    IN /\ MidCrash /\ c.sv
+    IN /\ MidCrash /\ c.sv /\ ~NotStarted
        /\ k < w1 + (IF c.resave THEN w1 ELSE 0)
-       /\ Boot(SaveK(db, c.st1[c.k1], r, n, height, k))
-       /\ act' = [name |-> "DecidedCrash", h |-> h, r |-> r, n |-> n, k |-> k]
+       /\ Boot(SaveK(db, c.st1[c.k1], r, n, height, k), rk)
+       /\ act' = [name |-> "DecidedCrash", h |-> h, r |-> r, n |-> n, k |-> k, brd |-> rk]
 
 (* Controller.OnTimeout; live = it reaches Instance.UponRoundTimeout of an instance that still runs *)
 OnTimeout(h, r) ==
     LET k == Idx(stored, h)
         live == k # 0 /\ r >= stored[k].round /\ ~stored[k].dec /\ ~stored[k].stop
-    IN /\ Timeouts
+    IN /\ Timeouts /\ ~NotStarted
        /\ live => stored[k].round < 2
        /\ stored' = IF live THEN [stored EXCEPT ![k].round = @ + 1, ![k].prop = FALSE] ELSE stored
        /\ act' = [name |-> "OnTimeout", h |-> h, r |-> r, live |-> live]
-       /\ UNCHANGED <<height, rs, db, restarts, wf, top, lc>>
+       /\ UNCHANGED <<height, rs, db, restarts, wf, rf, lf, top, lc>>
 
 (* crash between two calls, then Validator.Start *)
-Restart == Boot(db) /\ act' = [name |-> "Restart"]
+Restart(rk) == Boot(db, rk) /\ act' = [name |-> "Restart", brd |-> rk]
 
 Next == \/ \E s \in Heights : StartDuty(s) \/ CtlStart(s)
         \/ \E h \in Heights : Commit4(h) \/ \E F \in FaultSets : LocalMsgs(h, F)
-        \/ \E h \in Heights, r \in CertRounds, n \in {3, 4}, F \in FaultSets : Decided(h, r, n, F)
+        \/ \E h \in Heights, r \in CertRounds, n \in {3, 4}, F \in FaultSets, rk \in RdPlans :
+               Decided(h, r, n, F, rk) \/ (F = {} /\ DecidedReadErr(h, r, n, rk))
         \/ \E h \in Heights, r \in Rounds : OnTimeout(h, r)
-        \/ Restart
-        \/ \E h \in Heights, k \in 0..1 : \/ LocalMsgsCrash(h, k)
-                                          \/ \E r \in CertRounds, n \in {3, 4} : DecidedCrash(h, r, n, k)
+        \/ \E rk \in RdPlans : Restart(rk) \/ RetryStart(rk)
+        \/ \E h \in Heights, k \in 0..1, rk \in RdPlans :
+               \/ LocalMsgsCrash(h, k, rk)
+               \/ \E r \in CertRounds, n \in {3, 4} : DecidedCrash(h, r, n, k, rk)
 Spec == Init /\ [][Next]_vars
 
 ----------------------------------------------------------------------------
@@ -341,22 +412,42 @@ ContainerOK == /\ Len(stored) <= Cap
    whether or not the write of that decision failed - and above the stored highest decided height it was booted
    from (top: set to the stored highest height at boot, raised by every start and every decision since).  The code's height-0 special case, explicit:
    c.Height = 0 means "nothing yet" to ShouldProcessDuty, so the gate lets every slot through and the
-   controller alone refuses slot 0 - and only while it holds an instance for height 0 in memory. *)
+   controller alone refuses slot 0 - and only while it holds an instance for height 0 in memory.
+   After a restart the runner answers for the DURABLY STORED highest height (top is set to it at every start): a
+   start whose load of the highest instance FAILED ("err", "garbage": the store reported an error) gives no licence
+   to run a stored height again - refusing to start or retrying would be fine, silently starting from height 0 is a
+   re-run, and "c.Height = 0 means nothing yet" is no excuse when the code was told that its read failed.  Only when
+   the database itself answers not-found ("empty") is the start indistinguishable from a first one (top = -1). *)
+ZeroCase == height = 0 /\ Idx(stored, 0) = 0
 NoRerun == [][(act'.name = "StartDuty" /\ act'.ok)
                  => \/ act'.slot > top
-                    \/ act'.slot = 0 /\ height = 0 /\ Idx(stored, 0) = 0]_vars
+                    \/ act'.slot = 0 /\ ZeroCase /\ lf # "err"]_vars
+(* the same without the slot-0 corner (finding config: the counterexample is a stored height >= 1 run again) *)
+NoRerunAbove0 == [][(act'.name = "StartDuty" /\ act'.ok /\ act'.slot > 0) => act'.slot > top]_vars
+(* ... which the code does not guarantee (suspected defect, height-rerun-after-failed-highest-read): Validator.Start
+   logs the error of LoadHighestInstance and starts the validator on a fresh controller.  This is the only way NoRerun
+   fails: in an incarnation whose load failed, and even then the runner refuses what it has seen in memory. *)
+NoRerunExceptFailedLoad ==
+    [][(act'.name = "StartDuty" /\ act'.ok)
+          => \/ act'.slot > top
+             \/ act'.slot = 0 /\ ZeroCase
+             \/ lf = "err" /\ act'.slot > height]_vars
 (* the controller by itself: no instance below c.Height and none for a height it holds an instance of *)
 NoRerunCtl == [][(act'.name \in {"CtlStart", "StartDuty"} /\ act'.ok)
                     => act'.slot >= height /\ Idx(stored, act'.slot) = 0]_vars
-IsBoot(a) == a.name \in {"Restart", "DecidedCrash", "LocalMsgsCrash"}
+IsBoot(a) == a.name \in {"Restart", "DecidedCrash", "LocalMsgsCrash", "RetryStart"}
 HeightMonotone == [][~IsBoot(act') => height' >= height]_vars
-TopIsHeight == top = -1 \/ top = height
+TopIsHeight == lf = "err" \/ top = -1 \/ top = height
 
 (* the highest_instance record: replaced only by a greater height, or at the same height by a certificate
    with at least as many signers (see HighestStrict for the literal "more signers") *)
 RecMonotone(a, b) == a.h # -1 => \/ b.h > a.h
                                  \/ b.h = a.h /\ b.n >= a.n
 HighestMonotone == [][RecMonotone(db.hi, db'.hi)]_vars
+(* ... which an incarnation that was started although its load failed (or on an "empty" read) breaks as long as its
+   controller has not passed the stored highest height: every decision it sees is "the highest" to SaveInstance
+   (suspected defect, stored-overwritten-after-failed-highest-read; "empty": environment, nobody's fault) *)
+HighestMonotoneExceptFailedLoad == [][RecMonotone(db.hi, db'.hi) \/ (lf # "ok" /\ height <= db.hi.h)]_vars
 (* the same for decided certificates alone (attack configs: the counterexample is a pure certificate schedule) *)
 HighestMonotoneCert == [][act'.name = "Decided" => RecMonotone(db.hi, db'.hi)]_vars
 (* historical records (full node): literally "replaced only by more signers" ... *)
@@ -366,11 +457,19 @@ HistMonotoneNZ  == [][\A h \in Heights \ {0} : ~HistShrinks(h)]_vars
 (* ... which the code does not guarantee (recorded finding): a height decided before a restart but not covered by
    the highest_instance record (it was below c.Height when it was decided) is accepted again after the restart,
    and the decision of the fresh instance overwrites the older record.  This is the only way a record shrinks. *)
-HistMonotoneExceptRerun ==
-    [][\A h \in Heights : HistShrinks(h) =>
+RerunShrink(h) ==
           /\ restarts > 0 /\ act'.name \in {"LocalMsgs", "Decided", "LocalMsgsCrash", "DecidedCrash"}
           /\ act'.h = h /\ db'.hist[h].h = h
-          /\ LET k == Idx(stored, h) IN k # 0 /\ stored[k].run /\ ~stored[k].dec]_vars
+          /\ LET k == Idx(stored, h) IN k # 0 /\ stored[k].run /\ ~stored[k].dec
+(* HistMonotoneStrictReads: the excuse above only.  HistMonotoneExceptRerun adds the second way, open only to a failed
+   read: InstanceForHeight swallowed the error of GetInstance (or got not-found), UponDecided took the height for
+   undecided and saved the message's certificate over the stored one (suspected defect,
+   historical-overwritten-after-failed-instance-read) *)
+HistMonotoneStrictReads == [][\A h \in Heights : HistShrinks(h) => RerunShrink(h)]_vars
+HistMonotoneExceptRerun ==
+    [][\A h \in Heights : HistShrinks(h) =>
+          \/ RerunShrink(h)
+          \/ act'.name = "Decided" /\ act'.rd # "ok" /\ act'.h = h]_vars
 StorageShape    == /\ db.hi.h # -1 => db.hi.inst.dec /\ db.hi.n >= 3
                    /\ \A h \in Heights : db.hist[h].h \in {-1, h}
                    /\ ~FullNode => \A h \in Heights : db.hist[h].h = -1
@@ -380,17 +479,26 @@ StorageShape    == /\ db.hi.h # -1 => db.hi.inst.dec /\ db.hi.n >= 3
                    /\ db.hi.late = FALSE
 (* crash consistency of the two writes: a historical record that was written as a highest instance never gets
    ahead of the highest_instance record *)
-HistBehindHighest == \A h \in Heights : db.hist[h].h = h /\ ~db.hist[h].late => db.hi.h >= h
+HistBehindHighest == rf = 0 => \A h \in Heights : db.hist[h].h = h /\ ~db.hist[h].late => db.hi.h >= h
 
+(* the trace an incarnation that was started blind (failed or "empty" load) leaves when it has overwritten the highest
+   record by a lower one (HighestMonotoneExceptFailedLoad) on a full node: a historical record, written as a highest
+   one, above the highest record.  The stored copy of that height then keeps UponDecided from saving it again - in
+   that incarnation and in every later one (without read faults HistBehindHighest excludes such a state). *)
+Downgraded(d) == \E h \in Heights : h > d.hi.h /\ d.hist[h].h = h /\ ~d.hist[h].late
 (* whatever a completely processed, timely decided message none of whose writes failed taught this incarnation
    survives its death: the next incarnation starts from a stored highest height that is not below it *)
-RestartCoversLearned == [][IsBoot(act') => lc <= db'.hi.h]_vars
+RestartCoversLearned == [][IsBoot(act') => \/ lc <= db'.hi.h
+                                            \/ (rf > 0 /\ Downgraded(db'))]_vars
 
 (* after Restart the controller resumes with the stored highest height and refuses duties up to it *)
-DutyWouldStart(s) == ~GateRefuses(s) /\ CtlRefusal(s) = ""
-RestartResumes == (IsBoot(act) /\ db.hi.h # -1)
+DutyWouldStart(s) == ~NotStarted /\ ~GateRefuses(s) /\ CtlRefusal(s) = ""
+RestartResumes == (IsBoot(act) /\ db.hi.h # -1 /\ lf = "ok")
                       => /\ height = db.hi.h
                          /\ \A s \in 0..db.hi.h : ~DutyWouldStart(s)
+(* whatever the load did - short of a database that denies having the record - no stored height can be started
+   (holds with ReadFix, fails for the pinned code) *)
+RestartRefuses == (IsBoot(act) /\ db.hi.h # -1 /\ lf # "empty") => \A s \in 0..db.hi.h : ~DutyWouldStart(s)
 
 (* ---- observations: NOT properties of the faithful spec (used by the *_observe configs only) ---- *)
 (* literal reading of "by one with more signers": the certificate is unchanged or has strictly more signers *)
